@@ -30,6 +30,40 @@ def _normalises(F, b):
                 continue
             _, stops = _deep(F, bb, defs, d["place"]["l"])
             if "sum" not in stops:
+                # the divisor may be a variable captured from an enclosing body (`let total = weights.iter().sum(); .. map(|c| c * (w / total))`)
+                pl_ = d["place"]
+                for _ in range(4):      # `_9 = copy (*(*_1).total_weight)`
+                    if pl_["l"] == 1 or len(defs.of(pl_["l"])) != 1:
+                        break
+                    d_ = defs.of(pl_["l"])[0]
+                    if d_[0] == "stmt" and d_[4]["k"] == "use" and d_[4]["op"].get("k") in ("copy", "move"):
+                        pl_ = d_[4]["op"]["place"]
+                    elif d_[0] == "stmt" and d_[4]["k"] == "ref":
+                        pl_ = d_[4]["place"]
+                    else:
+                        break
+                up = [p for p in pl_["p"] if isinstance(p, dict) and "f" in p and p.get("n")]
+                cur = bb
+                found = False
+                for _ in range(3):
+                    if not (cur.is_closure() and pl_["l"] == 1 and up):
+                        break
+                    parent = F.body(cur.d.get("parent") or "")
+                    # closures nest: the enclosing body is the closure / function whose path is this path minus its last segment
+                    enclosing = F.body(cur.path.rsplit("::{closure#", 1)[0]) or parent
+                    if enclosing is None:
+                        break
+                    pdefs = Defs(enclosing)
+                    for l in range(len(enclosing.locals)):
+                        if enclosing.lname(l) == up[0]["n"]:
+                            _, st2 = _deep(F, enclosing, pdefs, l)
+                            if "sum" in st2 and _reads_weights(enclosing, pdefs, {"k": "copy", "place": {"l": l, "p": []}}):
+                                found = True
+                    if found:
+                        break
+                    cur = enclosing
+                if found:
+                    return span
                 continue
             if _reads_weights(bb, defs, d) and (_reads_weights(bb, defs, a) or True):
                 return span
